@@ -1,3 +1,152 @@
 package main
 
-func cmdSelftest(args []string) int { return 0 }
+import (
+	"encoding/json"
+	"flag"
+	"fmt"
+	"os"
+	"path/filepath"
+	"strings"
+)
+
+// Mutant is one deliberately property-breaking (must-fail) or harmless
+// (must-pass) change, applied in memory through the go/packages overlay.
+type Mutant struct {
+	Name     string   `json:"name"`
+	File     string   `json:"file"`
+	Old      string   `json:"old"`
+	New      string   `json:"new"`
+	Props    []string `json:"props"`     // properties whose check must report a violation (must-fail) ...
+	MustPass bool     `json:"must_pass"` // ... or must stay quiet (must-pass)
+	Expect   string   `json:"expect"`    // substring of an obligation expected to fail
+	Note     string   `json:"note"`
+}
+
+func loadMutants(verif string) ([]Mutant, error) {
+	var all []Mutant
+	files, _ := filepath.Glob(filepath.Join(verif, "selftest", "*.json"))
+	for _, f := range files {
+		data, err := os.ReadFile(f)
+		if err != nil {
+			return nil, err
+		}
+		var ms []Mutant
+		if err := json.Unmarshal(data, &ms); err != nil {
+			return nil, fmt.Errorf("%s: %v", f, err)
+		}
+		all = append(all, ms...)
+	}
+	return all, nil
+}
+
+// cmdSelftest runs the corpus: every must-fail mutant has to make the check of
+// each listed property fail on a claimed obligation, every must-pass mutant
+// has to leave it quiet.
+func cmdSelftest(args []string) int {
+	fs := flag.NewFlagSet("selftest", flag.ExitOnError)
+	prop := fs.String("prop", "", "only mutants for this property")
+	only := fs.String("name", "", "only mutants whose name contains this")
+	repo := fs.String("repo", "/repo", "")
+	verif := fs.String("verif", "/verif", "")
+	fs.Parse(args)
+	ms, err := loadMutants(*verif)
+	if err != nil {
+		fmt.Fprintln(os.Stderr, err)
+		return 2
+	}
+	bad := 0
+	run := 0
+	for _, m := range ms {
+		if *only != "" && !strings.Contains(m.Name, *only) {
+			continue
+		}
+		for _, p := range m.Props {
+			if *prop != "" && p != *prop {
+				continue
+			}
+			run++
+			src, err := os.ReadFile(filepath.Join(*repo, m.File))
+			if err != nil {
+				fmt.Printf("SELFTEST-ERROR %s: %v\n", m.Name, err)
+				bad++
+				continue
+			}
+			if strings.Count(string(src), m.Old) != 1 {
+				fmt.Printf("SELFTEST-STALE %s [%s]: anchor occurs %d times in %s\n", m.Name, p, strings.Count(string(src), m.Old), m.File)
+				bad++
+				continue
+			}
+			ov := map[string][]byte{filepath.Join(*repo, m.File): []byte(strings.Replace(string(src), m.Old, m.New, 1))}
+			o := &checkOpts{repo: *repo, verif: *verif, prop: p, tier: "quick", overlay: ov, quiet: true, noEvidence: true, mirror: os.Getenv("GOVC_CONTRACTS") == "mirror"}
+			out, err := runCheck(o)
+			if err != nil {
+				fmt.Printf("SELFTEST-ERROR %s [%s]: %v\n", m.Name, p, err)
+				bad++
+				continue
+			}
+			failed := failedNames(o, out)
+			switch {
+			case m.MustPass && len(failed) > 0:
+				fmt.Printf("SELFTEST-FALSE-ALARM %s [%s]: %v\n", m.Name, p, failed)
+				bad++
+			case m.MustPass:
+				fmt.Printf("selftest ok   (quiet)  %s [%s]\n", m.Name, p)
+			case len(failed) == 0:
+				fmt.Printf("SELFTEST-MISSED %s [%s]: no claimed obligation failed\n", m.Name, p)
+				bad++
+			case m.Expect != "" && !anyContains(failed, m.Expect):
+				fmt.Printf("SELFTEST-WRONG-OBLIGATION %s [%s]: expected %q, failed %v\n", m.Name, p, m.Expect, failed)
+				bad++
+			default:
+				fmt.Printf("selftest ok   (caught) %s [%s]: %s\n", m.Name, p, strings.Join(failed, ", "))
+			}
+		}
+	}
+	fmt.Printf("selftest: %d runs, %d problems\n", run, bad)
+	if bad > 0 {
+		return 1
+	}
+	return 0
+}
+
+func anyContains(l []string, s string) bool {
+	for _, x := range l {
+		if strings.Contains(x, s) {
+			return true
+		}
+	}
+	return false
+}
+
+// failedNames lists the failing obligations of a run that are not known findings.
+func failedNames(o *checkOpts, out *checkOutcome) []string {
+	known := map[string]bool{}
+	for _, k := range loadKnown(o.verif) {
+		if k.Property == o.prop && k.Status == "known" {
+			known[k.Obligation] = true
+		}
+	}
+	seen := map[string]bool{}
+	var names []string
+	add := func(n string) {
+		if !known[n] && !seen[n] {
+			seen[n] = true
+			names = append(names, n)
+		}
+	}
+	for _, r := range out.violations {
+		add(r.Obl.Name)
+	}
+	for _, r := range out.vacuous {
+		add(r.Obl.Name)
+	}
+	for _, b := range out.binding {
+		add("binding:" + strings.SplitN(b, ":", 2)[0])
+	}
+	for _, f := range out.frame {
+		if !f.OK {
+			add(f.Name)
+		}
+	}
+	return names
+}
